@@ -224,6 +224,24 @@ CHECKS["C01"] = dict(
     technique="TLC comparison of documented window function vs the code's construction + exhaustive replay on the real indicators",
     engine="tlc")
 
+CHECKS["C06"] = dict(
+    category="model_checking",
+    text="(a) documented data: on the network recorded from the real code (asset.SnapshotsAs* extractors labelled by hooks) TLC "
+         "propagates provenance tokens; the field set the action tokens depend on must equal the documented field set of each of "
+         "the 32 base strategies. (b) documented rule: spec/Rules.tla + RulesData.tla generated from the transcription of the "
+         "documentation (spec/rules_documented.json): TLC enumerates every realizable valuation of the comparison atoms of 30 "
+         "strategies, checks that the documented Buy/Sell conditions are exclusive and not vacuous and prints the decision table; "
+         "the harness computes the documented indicator values with the library's own indicator types from the documented "
+         "fields, position by position, next to the real strategy's action; values are abstracted to atoms and the action is "
+         "looked up in TLC's table; positions with equal compared quantities are exempt.",
+    design_ref="DESIGN.md 2.7, 5 (C06)",
+    note="Trusted: the transcription of the documentation (rules_documented.json, overrides and 'onlyif' modes in tools/rulesgen.py "
+         "with their reasons), the oracle quantities (harness/rules_quantities.go; arithmetic of the indicators themselves is C01's "
+         "concern). Alligator and StochasticRsi have no documented rule (field provenance only); MACD, Qstick, TripleRsi are "
+         "checked as necessary conditions.",
+    technique="TLC-generated decision tables + provenance tokens on recorded networks + replay against the library's own indicators",
+    engine="tlc")
+
 NOT_APPLICABLE = {
     "C15": "numeric range invariants of float formulas: no discrete state or transition for a TLA+ model to decide (DESIGN.md 6)",
     "C18": "relation between two float executions (homogeneity): numeric, not a state machine TLC can check (DESIGN.md 6)",
